@@ -31,7 +31,7 @@ class Gen:
             max_t=4, max_m=4, p_nonexcl=0.25, p_nested=0.15, p_struct=0.45, p_alias=0.2,
             p_rel=0.5, p_two_mods=0.2, p_fsm=0.12, p_wit=0.5, p_validate=0.2, p_enable=0.3,
             p_defect=0.0, sched="eager", p_body_in_struct=0.15, rdep_rel=True, nested=True,
-            p_rdyrun=0.0, p_badrun=0.0, p_chain=0.0, p_relalias=0.0, p_xmod=0.0, p_constenable=0.0, p_always=0.0, wit_rounds=1, p_fwdarg=0.0, fwd_safe=True, p_xcall=0.0, p_dblrel=0.0, p_widecond=0.0, p_rdepconf=0.0, p_orx=0.0,
+            p_rdyrun=0.0, p_badrun=0.0, p_chain=0.0, p_relalias=0.0, p_xmod=0.0, p_constenable=0.0, p_always=0.0, wit_rounds=1, p_fwdarg=0.0, fwd_safe=True, p_xcall=0.0, p_dblrel=0.0, p_widecond=0.0, p_rdepconf=0.0, p_orx=0.0, p_sugar=0.0, sugar_mode="",
         )
         self.opt.update(opt)
         self.nin = 0
@@ -248,7 +248,11 @@ class Gen:
                 s["argk"], s["argv"] = "c", r.randint(0, 3)
         return dict(nin=self.nin, nargs=self.nargs, bodies=self.bodies, sites=self.sites, wits=self.wits,
                     rels=self.rels, sched=o["sched"], roots=[roots[1], roots[2]], nmods=nmods, const0=self.const0,
-                    widecond=o["p_widecond"] > 0 and r.random() < o["p_widecond"])
+                    widecond=o["p_widecond"] > 0 and r.random() < o["p_widecond"],
+                    # construction style of the methods (same design, other API path): "" = Method.body,
+                    # "dm" = @def_method (arg / named / **kwargs parameter forms, dict or struct result),
+                    # "vec" = Methods vectors, @def_methods over adjacent bodies, Methods.provide / Methods.__call__
+                    sugar=((o["sugar_mode"] or r.choice(["dm", "vec"])) if o["p_sugar"] > 0 and r.random() < o["p_sugar"] else ""))
 
     def wrap_in_struct(self, node):
         r = self.r
@@ -596,12 +600,15 @@ def build(design, scheduler=None, netlist_only=False):
     raises for ill-formed designs."""
     from amaranth import Signal, Module, Elaboratable, Mux, Cat, Const
     from amaranth.sim import Simulator
-    from transactron import TModule, Method, Transaction
+    from types import SimpleNamespace
+    from transactron import TModule, Method, Methods, Transaction, def_method, def_methods
     from transactron.core import TransactionManager, Priority
     from transactron.core.context import TransactronContextElaboratable
     from transactron.utils.dependencies import DependencyContext, DependencyManager
 
     bodies, sites, wits = design["bodies"], design["sites"], design["wits"]
+    sugar = design.get("sugar", "")
+    vecpos, vecobj = {}, {}
     H = type("H", (), {})()
     H.inp = [None] + [Signal(name=f"in{i}") for i in range(1, design["nin"] + 1)]
     H.pseudo = []
@@ -645,9 +652,81 @@ def build(design, scheduler=None, netlist_only=False):
             self.emit(m, self.root)
             return m
 
+        def body_kw(self, B):
+            kw = {}
+            if B["nonexcl"]:
+                kw["nonexclusive"] = True
+                if B["hasarg"]:
+                    kw["combiner"] = orx_combiner if B["comb"] == "orx" else or_combiner
+            if B["validate"]:
+                kw["validate_arguments"] = validator
+            if B["single"]:
+                kw["single_caller"] = True
+            return kw
+
+        def sugar_body(self, m, b, form):
+            """The decorated function of @def_method / @def_methods for method b (parameter form 0..2)."""
+            B = bodies[b - 1]
+
+            def inner(argobj):
+                self.argstack = getattr(self, "argstack", []) + [argobj]
+                self.emit(m, B["ch"])
+                self.argstack = self.argstack[:-1]
+                if (b + form) % 2:
+                    return {"r": H.mout[b]}
+                out = Signal(H.obj[b].layout_out)
+                m.d.top_comb += out.r.eq(H.mout[b])
+                return out
+            if form == 0:
+                def f(arg):
+                    return inner(arg)
+            elif form == 1 and B["hasarg"]:
+                def f(a):
+                    return inner(SimpleNamespace(a=a))
+            elif form == 1:
+                def f():
+                    return inner(SimpleNamespace())
+            else:
+                def f(**kwargs):
+                    return inner(SimpleNamespace(**kwargs))
+            return f
+
         def emit(self, m, nodes):
-            for n in nodes:
+            skip = set()
+            if sugar == "vec":
+                # sibling order carries no meaning in the design: bring method bodies with equal parameters together
+                def order(n):
+                    if n["t"] == "body" and bodies[n["b"] - 1]["kind"] != "T":
+                        X = bodies[n["b"] - 1]
+                        return (0, bool(X["hasarg"]), bool(X["nonexcl"]), str(X.get("comb")), bool(X["validate"]), bool(X["single"]))
+                    return (1,)
+                nodes = sorted(nodes, key=order)
+            for ni, n in enumerate(nodes):
+                if ni in skip:
+                    continue
                 t = n["t"]
+                if t == "body" and sugar and bodies[n["b"] - 1]["kind"] != "T":
+                    b = n["b"]
+                    B = bodies[b - 1]
+                    if sugar == "dm":
+                        def_method(m, H.obj[b], ready=rdy(B), **self.body_kw(B))(self.sugar_body(m, b, b % 3))
+                        continue
+                    # "vec": this body and the adjacent sibling method bodies with the same parameters
+                    sig_of = lambda X: (X["hasarg"], X["nonexcl"], X.get("comb"), X["validate"], X["single"])  # noqa: E731
+                    grp = [b]
+                    for nj in range(ni + 1, len(nodes)):
+                        n2 = nodes[nj]
+                        if n2["t"] == "body" and bodies[n2["b"] - 1]["kind"] != "T" and sig_of(bodies[n2["b"] - 1]) == sig_of(B):
+                            grp.append(n2["b"])
+                            skip.add(nj)
+                        else:
+                            break
+                    fs = [self.sugar_body(m, x, 0) for x in grp]
+
+                    @def_methods(m, [H.obj[x] for x in grp], ready=lambda i: rdy(bodies[grp[i] - 1]), **self.body_kw(B))
+                    def _(i, arg):
+                        return fs[i](arg)
+                    continue
                 if t == "if":
                     def cnd(i, k):
                         # multi-bit condition values (non-zero means true): 2 * input, i.e. bit 0 always clear
@@ -703,9 +782,20 @@ def build(design, scheduler=None, netlist_only=False):
                 elif t == "call":
                     S = sites[n["s"] - 1]
                     callee = H.obj[S["callee"]]
-                    for _ in range(S["alias"]):
-                        al = Method(i=callee.layout_in, o=callee.layout_out)
-                        al.provide(callee)
+                    for lvl in range(1, S["alias"] + 1):
+                        if sugar == "vec" and S["callee"] in vecpos and (S["callee"] + n["s"]) % 2:
+                            # alias of the whole vector (Methods.provide); the call goes through element k of the alias vector
+                            h, k = vecpos[S["callee"]]
+                            prev = vecobj[h] if lvl == 1 else alvec
+                            alvec = Methods(len(prev), i=prev.layout_in, o=prev.layout_out)
+                            alvec.provide(prev)
+                            al = alvec[k]
+                        elif sugar == "vec":
+                            al = Methods(1, i=callee.layout_in, o=callee.layout_out)
+                            al.provide([callee] if isinstance(callee, Method) else callee)
+                        else:
+                            al = Method(i=callee.layout_in, o=callee.layout_out)
+                            al.provide(callee)
                         callee = al
                     kw = {}
                     if S["argk"] == "i":
@@ -750,9 +840,20 @@ def build(design, scheduler=None, netlist_only=False):
             return m
 
     with DependencyContext(dm):
+        vecs = {}
+        if sugar == "vec":
+            for h in (False, True):
+                idx = [b for b, B in enumerate(bodies, start=1) if B["kind"] != "T" and bool(B["hasarg"]) == h]
+                vec = Methods(len(idx), name=f"mv{int(h)}_", i=[("a", NARGBITS)] if h else [], o=[("r", NARGBITS)])
+                vecobj[h] = vec
+                for k, b in enumerate(idx):
+                    vecs[b] = vec[k]
+                    vecpos[b] = (h, k)
         for b, B in enumerate(bodies, start=1):
             if B["kind"] == "T":
                 H.obj[b] = Transaction(name=f"t{b}")
+            elif b in vecs:
+                H.obj[b] = vecs[b]
             else:
                 H.obj[b] = Method(name=f"m{b}", i=[("a", NARGBITS)] if B["hasarg"] else [], o=[("r", NARGBITS)])
         def endpoint(b, k):
